@@ -284,36 +284,57 @@ wr_harness!(c17_wr_vec_b7_d19, 7, 19, 0, prefilled_vec(0));
 
 // ------------------------------------------------------------------------------------------------ parse_name (real)
 
-// @harness name=c17_parse_name props=C17,C04 tier=quick timeout=1500
-// @bound the three queryable names (symbolic choice) exact, with ONE byte at a symbolic position replaced by any other byte value (256 values incl. non-UTF-8), truncated by one byte, or extended by one symbolic byte; plus the empty name
-// @functions ProtocolVariables::parse_name, bitflags from_name
-#[kani::proof]
-#[kani::unwind(20)]
-fn c17_parse_name() {
-    let which: usize = kani::any();
-    kani::assume(which < 3);
+fn expect_name(bytes: &[u8], want: Option<u8>) {
+    match (ProtocolVariables::parse_name(bytes), want) {
+        (Ok(v), Some(bits)) => assert!(v.bits() == bits, "wrong variable for a known name"),
+        (Err(ProtocolError::UnknownVariable), None) => {}
+        (Ok(_), None) => panic!("a name that is not exactly one of the three variable names was recognised"),
+        (Err(ProtocolError::UnknownVariable), Some(_)) => panic!("an exact variable name was not recognised"),
+        (Err(_), _) => panic!("wrong error variant"),
+    }
+}
+
+fn parse_name_case(which: usize) {
     let name = NAMES[which];
     let mut buf = [0u8; 16];
     let mut i = 0; while i < name.len() { buf[i] = name[i]; i += 1; }
-    let mode: u8 = kani::any();
-    kani::assume(mode < 5);
+    // exact, truncated by one, empty (concrete inputs)
+    expect_name(&buf[..name.len()], Some(1 << which));
+    expect_name(&buf[..name.len() - 1], None);
+    expect_name(&buf[..0], None);
+    // one byte at a symbolic position replaced by any other byte value (incl. non-UTF-8)
     let k: usize = kani::any();
     kani::assume(k < name.len());
     let b: u8 = kani::any();
-    let (len, expect_ok) = match mode {
-        0 => (name.len(), true),
-        1 => { kani::assume(b != name[k]); buf[k] = b; (name.len(), false) }
-        2 => (name.len() - 1, false),
-        3 => { buf[name.len()] = b; (name.len() + 1, false) }
-        _ => (0, false),
-    };
-    match ProtocolVariables::parse_name(&buf[..len]) {
-        Ok(v) => { assert!(expect_ok, "a name that is not exactly one of the three variable names was recognised"); assert!(v.bits() == 1 << which, "wrong variable for a known name"); }
-        Err(ProtocolError::UnknownVariable) => assert!(!expect_ok, "an exact variable name was not recognised"),
-        Err(_) => panic!("wrong error variant"),
-    }
-    kani::cover!(mode == 1 && b == name[k] + 32, "same name with one lower-case letter is unknown");
-    kani::cover!(mode == 1 && b >= 0x80, "non-UTF-8 byte inside the name");
-    kani::cover!(mode == 3, "known name with a trailing byte");
-    kani::cover!(mode == 0 && which == 2, "FCGI_MPXS_CONNS");
+    kani::assume(b != name[k]);
+    let mut m = buf;
+    m[k] = b;
+    expect_name(&m[..name.len()], None);
+    // extended by one symbolic byte
+    let mut e = buf;
+    e[name.len()] = kani::any();
+    expect_name(&e[..name.len() + 1], None);
+    kani::cover!(b == name[k] + 32, "same name with one lower-case letter is unknown");
+    kani::cover!(b >= 0x80, "non-UTF-8 byte inside the name");
 }
+
+// @harness name=c17_parse_name_max_conns props=C17,C04 tier=quick timeout=1500
+// @bound FCGI_MAX_CONNS: exact, truncated, empty, extended by one symbolic byte, and with ONE byte at a symbolic position replaced by any other value (incl. non-UTF-8)
+// @functions ProtocolVariables::parse_name, bitflags from_name
+#[kani::proof]
+#[kani::unwind(20)]
+fn c17_parse_name_max_conns() { parse_name_case(0); }
+
+// @harness name=c17_parse_name_max_reqs props=C17,C04 tier=thorough timeout=3000
+// @bound FCGI_MAX_REQS: as c17_parse_name_max_conns
+// @functions ProtocolVariables::parse_name
+#[kani::proof]
+#[kani::unwind(20)]
+fn c17_parse_name_max_reqs() { parse_name_case(1); }
+
+// @harness name=c17_parse_name_mpxs_conns props=C17,C04 tier=thorough timeout=3000
+// @bound FCGI_MPXS_CONNS: as c17_parse_name_max_conns
+// @functions ProtocolVariables::parse_name
+#[kani::proof]
+#[kani::unwind(20)]
+fn c17_parse_name_mpxs_conns() { parse_name_case(2); }
